@@ -97,6 +97,9 @@ type Net struct {
 
 	// Plan: explicit fates keyed by "id:<identity>#<occ>" or "ord:<client>:<mark>+<n>".
 	Plan map[string]Fate
+	// Persist: "ord:<client>:<mark>+<n>" -> fate applied to the n-th and EVERY later request of that
+	// client's marked phase (a fault that does not go away).
+	Persist map[string]Fate
 	// Random fault rates (used when the key is not in Plan and RandomFaults is set).
 	RandomFaults bool
 	FaultRate    float64
@@ -143,6 +146,7 @@ func NewNet(s *Sim, b Backend) *Net {
 	return &Net{
 		Sim: s, Backend: b,
 		Plan:       map[string]Fate{},
+		Persist:    map[string]Fate{},
 		MinLatency: 200 * time.Microsecond,
 		Jitter:     3 * time.Millisecond,
 		cut:        map[int]chan struct{}{},
@@ -453,6 +457,12 @@ func (n *Net) fateFor(rec *RPCRecord) (Fate, string) {
 	ordKey := fmt.Sprintf("ord:%d:%s+%d", rec.Client, rec.Mark, rec.MarkOrd)
 	if f, ok := n.Plan[ordKey]; ok {
 		return f, ordKey
+	}
+	for i := rec.MarkOrd; i >= 0 && len(n.Persist) > 0; i-- {
+		k := fmt.Sprintf("ord:%d:%s+%d", rec.Client, rec.Mark, i)
+		if f, ok := n.Persist[k]; ok {
+			return f, k + ".."
+		}
 	}
 	if f, ok := n.Plan[idKey]; ok {
 		return f, idKey
